@@ -361,6 +361,7 @@ class Engine:
         self.executed = set()
         self.max_steps = max_steps
         self.havoc_log = []
+        self.axioms = []         # global facts (e.g. monotonicity instances of an uninterpreted function) used when pruning
         self.cuts = set()        # (function name, block) cut points: reaching one ends the segment with a Cut value
         import z3
         self.z3 = z3
@@ -409,6 +410,7 @@ class Engine:
             if lo is not None: s.add(v >= lo)
             if hi is not None: s.add(v <= hi)
         for c in pc: s.add(self.zexpr(c))
+        for c in self.axioms: s.add(self.zexpr(c))
         r = s.check()
         if r == z3.unsat:
             self.stats['pruned'] += 1; return False
@@ -1123,7 +1125,8 @@ def convert_err(x):
 # =============================================================================== obligations
 class Obligation:
     def __init__(self, key, pc, goal, note='', hints=()):
-        self.key, self.pc, self.goal, self.note, self.hints = key, list(pc), goal, note, list(hints)
+        self.key, self.pc, self.goal, self.note = key, list(pc), goal, note
+        self.hints = hints if isinstance(hints, list) else list(hints)   # a list is shared by reference (global axioms grow while paths are explored)
         self.verdict = None; self.time = 0.0; self.model = None; self.solver = 'z3-5.1'
 
     def smt2(self, negate=True, get_model=True):
